@@ -254,6 +254,11 @@ class Summariser:
         return f is not None and f.split(".")[1] not in SCALARS
 
     def no_alias(self, ctx, me, value, where):
+        # live views (dict.values() / items() / keys()) stored in a local let the container be read after the lock is gone
+        if isinstance(value, ast.Call) and isinstance(value.func, ast.Attribute) and value.func.attr in ("values", "items", "keys"):
+            fv = self.tracked_attr(ctx, me, value.func.value)
+            if self.is_container(fv):
+                raise Fail(f"{where}: a live view ({value.func.attr}()) of tracked container {fv} is stored in a local")
         f = self.tracked_attr(ctx, me, value)
         if self.is_container(f):
             raise Fail(f"{where}: tracked container {f} is aliased into a local")
